@@ -18,6 +18,7 @@ CONSTANTS
   UseReopen = FALSE
   UseEpochs = FALSE
   OccSet = {FALSE, TRUE}
+  MinCleanSegs = 1
   UseReaders = FALSE
 INVARIANTS CTypeOK C01_Ordered SegsConsistent NoEmptyInnerSegment
 PROPERTIES StepsOK
